@@ -22,6 +22,13 @@ import (
 
 func init() {
 	register("supervise", &component{gen: genSupervise, exec: execSupervise})
+	// the concurrency bound of a node across a source restart (C05): one scenario, 10 s
+	register("supervise-C05", &component{gen: func(r *rng, n int, tier string, emit func(string)) {
+		emit("sup 9 fails=3 lat=1500")
+		if tier == "thorough" {
+			emit("sup 12 fails=2,3 lat=1000")
+		}
+	}, exec: execSupervise})
 }
 
 func genSupervise(r *rng, n int, tier string, emit func(string)) {
@@ -33,6 +40,7 @@ func genSupervise(r *rng, n int, tier string, emit func(string)) {
 	emit("sup 4 fails=1 delay=2:10600")
 	emit("sup 3 fails=1 runms=1:10600")
 	emit("sup 4 fails=2 setupfail=2")
+	emit("sup 5 fails=2 errkind=retriable")
 	if tier == "thorough" {
 		emit("sup 9 fails=2,0,4")
 		emit("sup 3 fails=1,1")
@@ -58,6 +66,7 @@ func execSupervise(input string) string {
 		return superviseInChild(input)
 	}
 	src := &sourceScript{stopAt: -1, setupDelay: map[int]time.Duration{}, runFor: map[int]time.Duration{}}
+	latUs := 0
 	for _, o := range f[2:] {
 		switch {
 		case strings.HasPrefix(o, "fails=") && o != "fails=-":
@@ -72,6 +81,10 @@ func execSupervise(input string) string {
 			src.setupDelay[inc] = time.Duration(ms) * time.Millisecond
 		case o == "cancelwrap=1":
 			src.cancelWrap = true
+		case strings.HasPrefix(o, "errkind="):
+			src.errKind = strings.TrimPrefix(o, "errkind=")
+		case strings.HasPrefix(o, "lat="):
+			latUs, _ = strconv.Atoi(strings.TrimPrefix(o, "lat="))
 		case strings.HasPrefix(o, "runms="):
 			p := strings.Split(strings.TrimPrefix(o, "runms="), ":")
 			inc, _ := strconv.Atoi(p[0])
@@ -86,7 +99,7 @@ func execSupervise(input string) string {
 	}
 	currentSource = src
 	run := nextRunID()
-	sp := &nodeSpec{idx: 0, id: fmt.Sprintf("r%d_0", run), kind: "sync", wPass: 100}
+	sp := &nodeSpec{idx: 0, id: fmt.Sprintf("r%d_0", run), kind: "sync", wPass: 100, latency: time.Duration(latUs) * time.Microsecond}
 	setScenario([]*nodeSpec{sp})
 	defer clearScenario([]*nodeSpec{sp})
 	cfg := config.Config{ApplicationName: "verif", MetricsPrefix: "verif", ShutdownTimeOut: 5,
@@ -141,6 +154,7 @@ func execSupervise(input string) string {
 	}
 	sp.mu.Lock()
 	recv := strings.Join(sp.recv, ",")
+	hw := sp.hw
 	sp.mu.Unlock()
 	if recv == "" {
 		recv = "-"
@@ -156,7 +170,7 @@ func execSupervise(input string) string {
 	if len(pauses) > 0 {
 		ps = strings.Join(pauses, ",")
 	}
-	return fmt.Sprintf("log=%s outch=%d params=%d ids=%d recv=%s returned=%s pauses=%s", strings.Join(log, ","), distinct(src.outCh), distinct(src.params), distinct(ids), recv, b01(returned), ps)
+	return fmt.Sprintf("log=%s outch=%d params=%d ids=%d recv=%s returned=%s pauses=%s hw=%d", strings.Join(log, ","), distinct(src.outCh), distinct(src.params), distinct(ids), recv, b01(returned), ps, hw)
 }
 
 // superviseInChild runs a scenario that ends in os.Exit in a child process and reports the lifecycle log it streamed
